@@ -34,7 +34,7 @@ def main():
     only = sys.argv[1:]
     for m in sorted(glob.glob("/tmp/mut/*C??/MUTANT/[0-9]")):
         dn = m.split("/")[3]; prop = dn[-3:]; n = m.split("/")[5]
-        tag = "%s-%s%s" % (prop, {"": "", "r2": "b", "r3": "c", "r4": "d", "r5": "e"}[dn[:-3]], n)
+        tag = "%s-%s%s" % (prop, {"": "", "r2": "b", "r3": "c", "r4": "d", "r5": "e", "r6": "f"}[dn[:-3]], n)
         if only and tag not in only:
             continue
         meta = json.load(open(os.path.join(m, "meta.json")))
